@@ -384,6 +384,32 @@ pub fn rows_c09(args: &[String]) -> i32 {
         let text = fmt(&e).unwrap_or_default();
         out.put(&json!({"t": "err", "code": c, "msg": bytes_json(m), "ext": bytes_json(b"ext"), "text": bytes_json(&text)}));
     }
+    // response units with several data: an unformattable datum anywhere makes the unit fail, whatever follows
+    {
+        use scpi::parser::response::Formatter;
+        let non_ascii: &[u8] = b"caf\xc3\xa9";
+        let empty: Vec<u8> = vec![];
+        for pos in 0..3usize {
+            for kind in ["empty-list", "non-ascii-string"] {
+                let mut buf: Vec<u8> = Vec::new();
+                let fin = {
+                    let mut u = buf.response_unit().unwrap();
+                    for k in 0..3usize {
+                        if k == pos {
+                            if kind == "empty-list" { u.data(empty.clone()); } else { u.data(non_ascii); }
+                        } else {
+                            u.data(7u8 + k as u8);
+                        }
+                    }
+                    u.finish()
+                };
+                out.put(&json!({"t": "unitfail", "kind": kind, "pos": pos, "finerr": fin.is_err(), "text": bytes_json(&buf)}));
+            }
+        }
+        let mut buf: Vec<u8> = Vec::new();
+        let fin = buf.response_unit().unwrap().data(1u8).data(&b"ok"[..]).data(-2i16).finish();
+        out.put(&json!({"t": "unitok", "finerr": fin.is_err(), "text": bytes_json(&buf)}));
+    }
     // every derived enum variant
     enum_rows_resp_only(&mut out);
     out.finish();
